@@ -36,6 +36,37 @@ def run_stats_values(run, prop, cases, binp, codes, what, tag=""):
             idx.append((c, r))
         else:
             run.nonfinite_stats = getattr(run, "nonfinite_stats", 0) + 1
+            # nothing drops out silently: a successful result some statistic of which is not finite has no term for the exact
+            # comparison; what can be said without one is said here. Legitimate: an exact fit (reduced chi^2 = 0) makes every
+            # variance 0 and the correlation 0/0. Not legitimate: a non-finite covariance from finite data, a non-finite correlation
+            # between two parameters of positive variance, variance accessors that are not the diagonal.
+            sx = st["stats"]
+            tb = r["steps"][3]["v"]
+            wv = num.weights_of(c)
+            finite_in = tb.get("phi") is not None and num.all_finite_mat(tb["phi"]) and all(d is not None and num.all_finite_mat(d) for d in tb["d"]) \
+                and (wv is None or all(is_finite_hex(h) for h in wv)) and st["lin_coef"] is not None and num.all_finite_mat(st["lin_coef"]) \
+                and all(is_finite_hex(h) for h in sx["wres"])
+            if finite_in and sx.get("cov") is not None:
+                cov = sx["cov"]["cols"]
+                K = len(cov)
+                if not num.all_finite_mat(sx["cov"]):
+                    if is_finite_hex(sx["chi2"]):
+                        run.violation("%s: the covariance matrix of a successful fit on finite data has non-finite entries" % what,
+                                      {"case": c, "stats": sx})
+                    continue
+                dg = [unhx(cov[j][j]) for j in range(K)]
+                if sx.get("corr") is not None:
+                    bad = [(i, j) for j in range(K) for i in range(K)
+                           if not is_finite_hex(sx["corr"]["cols"][j][i]) and dg[i] > 0 and dg[j] > 0]
+                    if bad:
+                        run.violation("%s: correlation entry %r is not finite although both variances are positive" % (what, bad[0]),
+                                      {"case": c, "stats": sx})
+                        continue
+                M_ = c["meta"]["M"]
+                if [hxbits(h) for h in sx["lin_var"]] != [hxbits(cov[j][j]) for j in range(M_)] or \
+                        [hxbits(h) for h in sx["nl_var"]] != [hxbits(cov[j][j]) for j in range(M_, K)]:
+                    run.violation("%s: variance accessors are not the diagonal segments of the covariance (linear first)" % what,
+                                  {"case": c, "stats": sx})
     vcodes = coq_eval(prop, num.HEADER, terms, per_file_timeout=2400)
     hist = {}
     for (c, r), code, t in zip(idx, vcodes, terms):
